@@ -769,5 +769,8 @@ for r, what in (('R111', 'mixture_model_utils / cacgmm / cACG'), ('R112', 'cwmm 
                  'R115': ['C01', 'C09', 'C14', 'C15', 'C16'], 'R116': ['C18', 'C19']}.get(r, [])
     C.append(dict(id=f'N22-{r}-blocks', kind='neutral', properties=ALLP, note=f'independent block-wise / in-place rewrite of {what}', patch=f'neutral_patches/{r}.patch', edits=[],
                   inconclusive_ok=undecided))
+# ---- memo tables whose stored value is a function of the key (pbv/cachekey.py): a module-level spline cache keyed by everything the spline depends on, an instance memo of the Bingham
+#      solver keyed by the exact eigenvalues - the broken twins are the seeds S21 / S54 (key ignores max_concentration), S116 / S229 (rounded key), S237 (id() key), S243 (subscripts only)
+C.append(dict(id='N24-R121-correct-caches', kind='neutral', properties=ALLP, note='memo tables keyed by everything the stored value depends on (C09 stops undecided: the spline is returned out of the table, the interp1d call is no longer the returned value)', patch='neutral_patches/R121.patch', edits=[], inconclusive_ok=['C09']))
 out.write_text(json.dumps(C, indent=1))
 print(len(C), 'variants ->', out)
